@@ -306,6 +306,135 @@ def real_loop_parity(ctx, pexpect, n):
     ctx.oracle_stats['real_loop_scenarios'] = tried
 
 
+def mixed_histories(ctx, pexpect, n):
+    """(C) blocking and awaited calls MIXED on one object under a real event loop, the output of each step arriving before the
+    call or a moment after it has started, with a timeout or without one (None): every step's outcome is known in advance - the
+    marker is found, before is the text in front of it - whichever way each call is made"""
+    import socket
+    import threading
+    from pexpect import fdpexpect, socket_pexpect
+    rng = ctx.rng
+    tried = 0
+    for it in range(n):
+        transport = rng.choice(['pipe', 'fdsocket', 'socket'])
+        steps = [(rng.choice(['await', 'blocking']), ''.join(rng.choice('abc') for _ in range(rng.randint(0, 5))).encode(), rng.random() < 0.5,
+                  rng.choice([None, None, 5])) for _ in range(rng.randint(2, 4))]
+        if transport == 'pipe':
+            r, w = os.pipe()
+            c = fdpexpect.fdspawn(r, timeout=5)
+            wr = lambda b: os.write(w, b)
+            fds = [r, w]
+            socks = []
+        else:
+            a, b = socket.socketpair()
+            c = socket_pexpect.SocketSpawn(a, timeout=5) if transport == 'socket' else fdpexpect.fdspawn(a.fileno(), timeout=5)
+            wr = b.sendall
+            fds, socks = [], [a, b]
+        out = []
+
+        async def go():
+            for mode, text, late, tmo in steps:
+                data = text + b'#'
+                th = None
+                if late:
+                    th = threading.Timer(0.08, wr, (data,))
+                    th.start()
+                else:
+                    wr(data)
+                try:
+                    if mode == 'await':
+                        idx = await c.expect_exact([b'#', pexpect.EOF], timeout=tmo, async_=True)
+                    else:
+                        idx = c.expect_exact([b'#', pexpect.EOF], timeout=tmo)
+                    out.append((idx, c.before))
+                except Exception as e:
+                    out.append(('raised', repr(e)))
+                    if th:
+                        th.join()
+                    return
+                if th:
+                    th.join()
+        loop = asyncio.new_event_loop()
+        try:
+            asyncio.set_event_loop(loop)
+            loop.run_until_complete(asyncio.wait_for(go(), 30))
+        except Exception as e:
+            out.append(('raised', repr(e)))
+        finally:
+            try:
+                if c.async_pw_transport:
+                    c.async_pw_transport[1].close()
+            except Exception:
+                pass
+            loop.run_until_complete(asyncio.sleep(0))
+            loop.close()
+            asyncio.set_event_loop(None)
+            for fd in fds:
+                try:
+                    os.close(fd)
+                except OSError:
+                    pass
+            for s_ in socks:
+                try:
+                    s_.close()
+                except OSError:
+                    pass
+        tried += 1
+        want = [(0, text) for _, text, _, _ in steps]
+        if out != want:
+            ctx.hit('C14/mixed', '%s: calls %r (mode, text before the marker, output arrives after the call started, timeout): outcomes %r, expected %r'
+                    % (transport, [(m, t, l, o) for m, t, l, o in steps], out, want), {'transport': transport, 'steps': [(m, list(t), l, o) for m, t, l, o in steps]})
+            return
+    ctx.oracle_stats['mixed_real_loop_histories'] = tried
+
+
+def awaited_bound(ctx, pexpect):
+    """last clause of C14: an awaited call with a timeout T is bounded by it - for every T, also 0 and values below 0 other than -1
+    (the time is already up: e.g. a deadline minus now), whatever the object's own timeout attribute is.  A silent pipe."""
+    from pexpect import fdpexpect
+    tried = 0
+    for T in (-7, -0.5, 0, 0.05, 0.3):
+        for entry in ('expect', 'expect_exact', 'expect_list'):
+            r, w = os.pipe()
+            c = fdpexpect.fdspawn(r, timeout=4)
+            res = {}
+
+            async def go():
+                t0 = time.time()
+                try:
+                    pat = [re.compile(b'zz')] if entry == 'expect_list' else [b'zz']
+                    res['out'] = await getattr(c, entry)(pat, timeout=T, async_=True)
+                except pexpect.TIMEOUT:
+                    res['out'] = 'TIMEOUT'
+                except Exception as e:
+                    res['out'] = repr(e)
+                res['t'] = time.time() - t0
+            loop = asyncio.new_event_loop()
+            try:
+                asyncio.set_event_loop(loop)
+                loop.run_until_complete(go())
+            finally:
+                try:
+                    if c.async_pw_transport:
+                        c.async_pw_transport[1].close()
+                except Exception:
+                    pass
+                loop.run_until_complete(asyncio.sleep(0))
+                loop.close()
+                asyncio.set_event_loop(None)
+                for fd in (r, w):
+                    try:
+                        os.close(fd)
+                    except OSError:
+                        pass
+            tried += 1
+            if res.get('out') != 'TIMEOUT' or res['t'] > max(T, 0) + 1.0:
+                ctx.hit('C14/bound', 'awaited %s(timeout=%r) on a silent pipe (the object\'s own timeout is 4): outcome %r after %.2f s'
+                        % (entry, T, res.get('out'), res.get('t', -1)), {'timeout': T, 'entry': entry})
+                return
+    ctx.oracle_stats['awaited_bound_calls'] = tried
+
+
 def run(ctx):
     pexpect = common.preflight()
     thorough = ctx.tier == 'thorough'
@@ -338,6 +467,8 @@ def run(ctx):
     else:
         ctx.corr_broken.append(('pw-driven', {'error': 'model did not build'}))
     real_loop_parity(ctx, pexpect, 200 if thorough else 30)
+    mixed_histories(ctx, pexpect, 150 if thorough else 25)
+    awaited_bound(ctx, pexpect)
 
 
 def replay(ctx, path):
